@@ -118,7 +118,7 @@ def codeStr : Code → String
 
 def smStr (sm : SM) : String := "(sm " ++ " ".intercalate (sm.codes.map codeStr) ++ ")"
 
-def compileStr (p : Stmt) : String := if rejected p then "reject" else smStr (compileSM p)
+def compileStr (p : Stmt) : String := match compileSM p with | some sm => smStr sm | none => "reject"
 
 def splitBar (toks : List String) : List String × List String :=
   (toks.takeWhile (· ≠ "|"), (toks.dropWhile (· ≠ "|")).drop 1)
